@@ -142,7 +142,7 @@ def run(tier, seed):
     import mu_common
     tie = mu_common.tie(res, "mudbg_replay", "MuDbgModel", [("mu_mix", {"VRT_DEBUGGER": 1, "VRT_RACE": 0}, 300, 3000),
                                                              ("mu_mix", {"VRT_DEBUGGER": 2, "VRT_RACE": 0}, 200, 2000)], tier, seed)
-    tie2 = mu_common.tie(res, "cvdbg_replay", "CvDbgModel", [("cv_mix", {"VRT_MODE": m, "VRT_DEBUGGER": 1, "VRT_RACE": 0}, 100, 1000) for m in (0, 1, 2, 3)], tier, seed)
+    tie2 = mu_common.tie(res, "cvdbg_replay", "CvDbgModel", [("cv_mix", {"VRT_MODE": m, "VRT_DEBUGGER": 1, "VRT_RACE": 0}, 100, 1000) for m in (0, 1, 2, 3, 7)], tier, seed)
     # (a) transparency under concurrency: lockers + debug caller under the deterministic scheduler
     na = 0
     agg = {}
